@@ -36,16 +36,62 @@ Proof.
     constructor; [|exact F]. intros H. cbn [c_gap]. now rewrite vis_mk_seps.
 Qed.
 
-Theorem Sep_del : forall A M B, Sep (A ++ M ++ B) -> Sep (del_res A M B).
+Lemma vis_app : forall a b, vis (a ++ b) = vis a || vis b.
+Proof. intros. unfold vis. apply existsb_app. Qed.
+
+Theorem Sep_del : forall A M B post, Sep (A ++ M ++ B) -> Sep (del_res A M B post).
 Proof.
-  intros A M B H. destruct A as [|a A].
+  intros A M B post H. destruct A as [|a A].
   - destruct M as [|m0 M']; [exact H|]. destruct B as [|b0 B']; [exact I|].
     cbn [app del_res Sep] in *. destruct H as [H0 HF]. split; [exact H0|].
     apply Forall_app in HF. destruct HF as [_ HF]. exact (Forall_inv_tail HF).
-  - replace (del_res (a :: A) M B) with ((a :: A) ++ B) by (now destruct M).
-    cbn [app Sep] in *. destruct H as [H0 HF]. split; [exact H0|].
-    apply Forall_app in HF. destruct HF as [HA HF]. apply Forall_app in HF. destruct HF as [_ HB].
-    apply Forall_app. now split.
+  - rewrite del_res_front.
+    assert (Gen : Sep ((a :: A) ++ B)).
+    { cbn [app Sep] in *. destruct H as [H0 HF]. split; [exact H0|].
+      apply Forall_app in HF. destruct HF as [HA HF]. apply Forall_app in HF. destruct HF as [_ HB].
+      apply Forall_app. now split. }
+    destruct M as [|m0 M']; [exact Gen|]. destruct B as [|b0 B']; [exact Gen|].
+    destruct (keep_gap _ _); [|exact Gen].
+    cbn [app Sep] in *. destruct Gen as [H0 HF]. split; [exact H0|].
+    apply Forall_app in HF. destruct HF as [HA HB]. apply Forall_app. split; [exact HA|].
+    constructor; [|exact (Forall_inv_tail HB)].
+    intros Hv. cbn [c_gap]. rewrite vis_app, (Forall_inv HB Hv). apply orb_true_r.
+Qed.
+
+(* what the repaired _del_tokens is for: when the gap in front of the removed items stays (RepeatedProofs.keep_gap:
+   it is not empty, all blank, and the item behind the window is written right against the removed one), the item
+   behind the window gets it in front of its own gap - whatever its own gap was (`"s"2`: empty).  So if the removed
+   item was kept apart from the previous one by visible text, the item that follows it now is too, without any
+   hypothesis on its own gap *)
+Theorem del_glued_keeps_gap : forall ph pre pht a A m0 M' b0 B' post,
+  WF ph pre pht ((a :: A) ++ (m0 :: M') ++ b0 :: B') post ->
+  keep_gap (c_gap m0) (flat (b0 :: B') ++ post) = true ->
+  exists c,
+    (del_tokens ph (lay pre pht ((a :: A) ++ (m0 :: M') ++ b0 :: B') post)
+               (map item_of ((a :: A) ++ (m0 :: M') ++ b0 :: B')) (zlen (a :: A)) (zlen (a :: A) + zlen (m0 :: M'))
+     = (lay pre pht ((a :: A) ++ c :: B') post, Ok tt)) /\
+    c_body c = c_body b0 /\ c_gap c = c_gap m0 ++ c_gap b0 /\
+    c_gap m0 <> [] /\ forallb blank_tok (c_gap m0) = true /\
+    (vis (c_gap m0) = true -> vis (c_gap c) = true) /\
+    (gap_ok m0 -> gap_ok c).
+Proof.
+  intros ph pre pht a A m0 M' b0 B' post Hwf Hk.
+  exists (mkcell (c_gap m0 ++ c_gap b0) (c_body b0)). split; [|split; [reflexivity|split; [reflexivity|]]].
+  - rewrite (del_layout ph pre pht (a :: A) (m0 :: M') (b0 :: B') post Hwf ltac:(discriminate)).
+    cbn [del_res]. rewrite Hk. reflexivity.
+  - unfold keep_gap in Hk. destruct (c_gap m0) as [|g0 G'] eqn:Eg; [discriminate|].
+    apply andb_true_iff in Hk. destruct Hk as [_ Hb].
+    split; [discriminate|]. split; [exact Hb|]. cbn [c_gap]. split.
+    + intros Hv. rewrite vis_app, Hv. reflexivity.
+    + intros Hm Hs. cbn [c_gap]. rewrite vis_app. unfold gap_ok in Hm. rewrite Eg in Hm. rewrite (Hm Hs). reflexivity.
+Qed.
+
+Lemma keep_gap_shows : forall g G Z n Q,
+  Forall (fun t => ttext t = []) Z -> shows true n = true -> forallb blank_tok (g :: G) = true ->
+  keep_gap (g :: G) (Z ++ n :: Q) = true.
+Proof.
+  intros g G Z n Q HZ Hn Hb. unfold keep_gap. rewrite Hb, touches_next_eq.
+  rewrite (touches_skip true Z n Q HZ Hn). reflexivity.
 Qed.
 
 Theorem Sep_ins : forall A B fr vs, Sep (A ++ B) -> Sep (ins_res seps sepsb A B fr vs).
@@ -81,31 +127,34 @@ Proof.
   apply Forall_forall. intros c _ Hv. discriminate.
 Qed.
 
-(* ---- known finding C06:list-item-removed-next-to-glued-item ------------------------------------------------
+(* ---- the repaired finding C06:list-item-removed-next-to-glued-item ------------------------------------------
    Sep is a hypothesis a parsed document need not meet: `custom "x" 1 "s"2` is accepted although no separator stands
-   between "s" and 2 (cell of `2`: empty gap).  _del_tokens removes the gap and the body of the deleted cell and
-   nothing else, so the bodies of the two neighbours - kept apart by the blank and the deleted item before - are
-   adjacent tokens afterwards (`1` `2`, which lex as `12`).  Layout (C03) is kept; separation was never there. *)
+   between "s" and 2 (cell of `2`: empty gap).  _del_tokens used to remove the gap and the body of the deleted cell
+   and nothing else, so the bodies of the two neighbours - kept apart by the blank and the deleted item before - were
+   adjacent tokens afterwards (`1` `2`, which lex as `12`).  As repaired the blank in front of the deleted `"s"` (token
+   5) stays: `1 2`. *)
 Definition glued_doc : doc :=
   [mktok 1 KOther [34;120;34]; mktok 2 KPlaceholder []; mktok 3 KWhitespace [32]; mktok 4 KOther [49];
    mktok 5 KWhitespace [32]; mktok 6 KOther [34;115;34]; mktok 7 KOther [50]; mktok 8 KNewline [10]].
 Definition glued_items : list item := [(4, 4); (6, 6); (7, 7)].
 
-Theorem del_glued_refuted :
+Theorem del_keeps_blank_before_glued_item :
   layout_b 2 glued_doc glued_items = true /\
   (exists pre pht a m b post, glued_doc = lay pre pht [a; m; b] post /\ vis (c_gap m) = true /\ c_gap b = [] /\
-     ~ Sep [(KWhitespace, [32])] [(KWhitespace, [32])] [a; m; b]) /\
+     ~ Sep [(KWhitespace, [32])] [(KWhitespace, [32])] [a; m; b] /\
+     keep_gap (c_gap m) (flat [b] ++ post) = true) /\
   fst (del_tokens 2 glued_doc glued_items 1 2) =
     [mktok 1 KOther [34;120;34]; mktok 2 KPlaceholder []; mktok 3 KWhitespace [32]; mktok 4 KOther [49];
-     mktok 7 KOther [50]; mktok 8 KNewline [10]] /\
-  snd (del_tokens 2 glued_doc glued_items 1 2) = Ok tt.
+     mktok 5 KWhitespace [32]; mktok 7 KOther [50]; mktok 8 KNewline [10]] /\
+  snd (del_tokens 2 glued_doc glued_items 1 2) = Ok tt /\
+  layout_b 2 (fst (del_tokens 2 glued_doc glued_items 1 2)) [(4, 4); (7, 7)] = true.
 Proof.
-  split; [vm_compute; reflexivity|]. split; [|split; vm_compute; reflexivity].
+  split; [vm_compute; reflexivity|]. split; [|split; [|split]; vm_compute; reflexivity].
   exists [mktok 1 KOther [34;120;34]], (mktok 2 KPlaceholder []),
     (mkcell [mktok 3 KWhitespace [32]] [mktok 4 KOther [49]]),
     (mkcell [mktok 5 KWhitespace [32]] [mktok 6 KOther [34;115;34]]),
     (mkcell [] [mktok 7 KOther [50]]), [mktok 8 KNewline [10]].
-  split; [reflexivity|]. split; [reflexivity|]. split; [reflexivity|].
+  split; [reflexivity|]. split; [reflexivity|]. split; [reflexivity|]. split; [|vm_compute; reflexivity].
   intros [_ HF]. inversion HF as [|x l _ HF2]; subst. inversion HF2 as [|y l2 Hb _]; subst.
   specialize (Hb eq_refl). discriminate Hb.
 Qed.
